@@ -65,6 +65,7 @@ DEFAULT_WEIGHTS = {
     'add_server': 2, 'del_server': 2, 'replace_server': 3,
     'down': 4, 'up': 4, 'freeze': 2, 'blacklist': 2, 'unblacklist': 1,
     'renew': 2, 'group': 3, 'del_group': 1, 'alloc_update': 2, 'clock': 5,
+    'reload_cell': 1,
 }
 
 
@@ -389,6 +390,17 @@ class CellDriver:
                  maxutil=spec['maxutil'])
         self.ops.append(('alloc_update', list(key), spec))
 
+    def op_reload_cell(self):
+        """loader.load_cell (the master's 'cell' event): reset the cell's
+        children and attach the top-level buckets again."""
+        tops = [b for b, h in self.H.buckets.items() if h['parent'] is None]
+        if not tops:
+            return
+        self.cell.reset_children()
+        for b in tops:
+            self.cell.add_node(self.bucket_objs[b])
+        self.ops.append(('reload_cell',))
+
     def op_clock(self, dt):
         self.clock.advance(dt)
         self.ops.append(('clock', dt))
@@ -476,6 +488,8 @@ class CellDriver:
                 self.op_alloc_update(key, self._gen_alloc_spec())
         elif kind == 'clock':
             self.op_clock(self.gen_clock_step())
+        elif kind == 'reload_cell':
+            self.op_reload_cell()
         elif kind == 'renew':
             return 'renew'
         return kind
